@@ -21,10 +21,12 @@ CONSTANTS MaxN, MaxAdds, MaxStack, MaxUnd, Acts,
           \* most one addition) and its undo
           MinN, InitDead, InitHeld
 
-VARIABLES n, live, held, stack, und, hist
+VARIABLES n, live, held, stack, und, hist,
+          tord   \* the order of the client's targets when its proof is the result of a restriction
+                 \* (GetProofSubset keeps the caller's order); <<>> otherwise (Update and Undo sort)
 
-vars == <<n, live, held, stack, und, hist>>
-View == <<n, live, held, stack, und>>
+vars == <<n, live, held, stack, und, hist, tord>>
+View == <<n, live, held, stack, und, tord>>
 
 JPos(p)    == <<p.row, p.idx>>
 JProof(pr) == [t |-> [i \in 1..Len(pr.t) |-> JPos(pr.t[i])], p |-> pr.p]
@@ -64,7 +66,7 @@ InitHist(x, lv, hd) ==
   (IF x = 0 THEN <<>> ELSE <<BlockStepAt(0, {}, {}, <<>>, x, hd)>>)
     \o (IF dead = {} THEN <<>> ELSE <<BlockStepAt(x, 0..(x - 1), hd, AscSeq(dead), 0, {})>>)
 
-Init == /\ stack = <<>> /\ und = 0
+Init == /\ stack = <<>> /\ und = 0 /\ tord = <<>>
         /\ IF ~Wide
            THEN n = 0 /\ live = {} /\ held = {} /\ hist = <<>>
            ELSE /\ n \in MinN..(MaxN - 1)
@@ -96,7 +98,7 @@ Block ==
                 step == BlockStepAt(n, live, held, ord, k, Rem)
             IN  /\ n' = n2 /\ live' = lv2 /\ held' = hd2
                 /\ stack' = Push([n |-> n, live |-> live])
-                /\ und' = und
+                /\ und' = und /\ tord' = <<>>
                 /\ hist' = Append(hist, step)
                 /\ Emit(step, [n |-> n2, roots |-> Roots(n2, lv2)])
 
@@ -119,11 +121,27 @@ UndoBlock ==
                    held |-> hold.held, cp |-> hold.cp ]
      IN  /\ n' = prev.n /\ live' = prev.live /\ held' = hdU
          /\ stack' = Tail(stack)
-         /\ und' = und + 1
+         /\ und' = und + 1 /\ tord' = <<>>
          /\ hist' = Append(hist, step)
          /\ Emit(step, [n |-> prev.n, roots |-> Roots(prev.n, prev.live)])
 
-Next == Block \/ UndoBlock
+\* the client restricts its proof to some of its leaves, asked for in any order
+\* (GetProofSubset); what it holds afterwards is the canonical proof of those
+RestrictProof ==
+  /\ "restrict" \in Acts
+  /\ tord = <<>>
+  /\ \E W \in SUBSET held \ {{}} :
+       /\ Cardinality(W) <= 3
+       /\ \E o \in SetToSeqs(W) :
+            LET hold == Holding(n, live, W)
+                step == [ a |-> "restrict", w |-> o, held |-> hold.held, cp |-> hold.cp,
+                          post |-> Roots(n, live) ]
+            IN  /\ held' = W /\ tord' = o
+                /\ hist' = Append(hist, step)
+                /\ UNCHANGED <<n, live, stack, und>>
+                /\ Emit(step, [n |-> n, roots |-> Roots(n, live)])
+
+Next == Block \/ UndoBlock \/ RestrictProof
 Spec == Init /\ [][Next]_vars
 
 TypeOK == n \in 0..MaxN /\ live \subseteq 0..(n-1) /\ held \subseteq live
